@@ -332,7 +332,58 @@ def gen_query_arg(rng, keys, used=None):
     return d
 
 
-def gen_script(rng, length, keys=None, with_copy=True):
+COPY_POSITIONS = ("src-inside-dst", "dst-inside-src", "equal", "disjoint", "missing-src", "created-dst")
+
+
+def _plain_parts(parts):
+    """insert / append subscripts turned into plain ones (they are errors in a look-up)"""
+    fixed = []
+    for kind, b in parts:
+        if kind == "s" and b"+" in b:
+            digits = bytes(c for c in b if 48 <= c <= 57)
+            b = b"[" + (digits or b"0") + b"]"
+        fixed.append((kind, b))
+    return fixed
+
+
+def gen_copywithin(rng, keys, used, stats=None, position=None):
+    """An aliased copy  p = set_subtree(&root, dst); s = get_subtree(root, src); vnaproperty_copy(p, s)
+    with a chosen relative position of source and destination (COPY_POSITIONS); paths are taken from
+    the paths set earlier in the script when possible, so that the source usually exists."""
+    pos = position or rng.choice(COPY_POSITIONS)
+    long_used = [u for u in (used or []) if len(u) >= 2]
+    if long_used and rng.random() < 0.8:
+        u = _plain_parts(rng.choice(long_used))
+        k = rng.randint(1, len(u) - 1)
+        outer, inner = u[:k], u[:rng.randint(k + 1, len(u))]
+    else:
+        outer = _plain_parts(gen_parts(rng, keys, 2))
+        inner = outer + _plain_parts(gen_parts(rng, keys, 2))
+    if pos == "src-inside-dst":
+        dst, src = outer, inner
+    elif pos == "dst-inside-src":
+        dst, src = inner, outer
+    elif pos == "equal":
+        dst = src = rng.choice([outer, inner])
+    elif pos == "disjoint":
+        dst = inner
+        other = [u for u in (used or []) if _plain_parts(u)[:1] != outer[:1]]
+        src = _plain_parts(rng.choice(other)) if other and rng.random() < 0.7 else _plain_parts(gen_parts(rng, keys, 2))
+    elif pos == "missing-src":
+        dst = rng.choice([outer, inner])
+        src = rng.choice([outer, inner]) + [("k", b"nokey%d" % rng.randint(0, 9))]
+    else:                                           # the destination path is created by the call
+        dst = rng.choice([outer, inner]) + [rng.choice([("s", b"[+]"), ("s", b"[0+]"), ("s", b"[2+]"), ("s", b"[11]"),
+                                                        ("k", b"new%d" % rng.randint(0, 9))])]
+        src = rng.choice([outer, inner, [], dst[:-1]])
+    if stats is not None:
+        stats[pos] = stats.get(pos, 0) + 1
+    d = join_parts(rng, dst)
+    s2 = join_parts(rng, src) if src else b"."
+    return ("copywithin", d, s2)
+
+
+def gen_script(rng, length, keys=None, with_copy=True, stats=None):
     if keys is None:
         nk = rng.randint(2, 5)
         keys = rng.sample(PLAIN_KEYS, min(nk, len(PLAIN_KEYS))) + rng.sample(HOSTILE_KEYS, rng.randint(0, 3))
@@ -360,10 +411,15 @@ def gen_script(rng, length, keys=None, with_copy=True):
             ops.append(("subset", gen_query_arg(rng, keys, used), gen_set_arg(rng, keys, used)))
         elif r < 0.92:
             ops.append(("subdel", gen_query_arg(rng, keys, used), gen_query_arg(rng, keys, used)))
-        elif r < 0.95 and with_copy:
+        elif r < 0.94 and with_copy:
             ops.append(("copyout", gen_query_arg(rng, keys, used)))
-        elif r < 0.98 and with_copy:
+        elif r < 0.96 and with_copy:
             ops.append(("copyin", gen_query_arg(rng, keys, used)))
+        elif r < 0.985 and with_copy:
+            if rng.random() < 0.85:
+                ops.append(gen_copywithin(rng, keys, used, stats))
+            else:                                   # any two descriptors, malformed ones included
+                ops.append(("copywithin", gen_query_arg(rng, keys, used), gen_query_arg(rng, keys, used)))
         else:
             ops.append(("quote", rng.choice(keys + HOSTILE_KEYS)))
     return ops
